@@ -22,6 +22,7 @@ def graphs(tier):
     G = nx.Graph(); G.add_edges_from([(0, 1), (1, 2), (2, 3), (1, 3), (3, 4)]); gs.append(('tailed-triangle', G))
     G = nx.Graph(); G.add_edges_from([(0, 1), (0, 2), (0, 3)]); G.add_node(4); gs.append(('star+isolated', G))
     G = nx.Graph(); G.add_edges_from([('a', 'b'), ('b', 'c'), ('c', 'd'), ('d', 'a'), ('x', 'y')]); gs.append(('cycle+edge, string labels', G))
+    G = nx.Graph(); G.add_edges_from([(0, 1), (1, 2), (2, 0), (2, 3), (0, 0), (3, 3), (3, 4)]); gs.append(('triangle with self-loops and a tail', G))
     if tier != 'quick':
         G = nx.Graph(); G.add_edges_from([(3, 1), (1, 0), (0, 2), (2, 3), (3, 0), (4, 5)]); gs.append(('permuted labels', G))
         G = nx.complete_graph(4); gs.append(('K4', G))
@@ -392,6 +393,8 @@ def ic_oracle(name, G, status, shape):
                 if st(a) == name[0] and st(b) == name[2]:
                     out[kidx(deg[a])][kidx(deg[b])] += 1
         return out
+    if name in ('Ssi', 'S_si', 'Isi') and nx.number_of_selfloops(G) > 0:
+        return None        # how a self-loop enters the (s, i) neighbour counts of the effective-degree classes is not fixed by the property
     if name in ('Ssi', 'S_si', 'Isi'):
         out = np.zeros(shape[:2])
         for u in nodes:
